@@ -263,6 +263,37 @@ func (env *Env) ident(name string) Val {
 	if v, ok := env.vars[name]; ok {
 		return v
 	}
+	// rangeindexN: the hidden index of range loop N (for invariants of a loop nested in it)
+	if env.fr != nil && strings.HasPrefix(name, "rangeindex") && len(name) > len("rangeindex") {
+		if n, err := strconv.Atoi(name[len("rangeindex"):]); err == nil {
+			for h, ord := range env.fr.loopOrd {
+				if ord != n {
+					continue
+				}
+				for _, in := range h.Instrs {
+					phi, ok := in.(*ssa.Phi)
+					if !ok {
+						break
+					}
+					if phi.Comment == "rangeindex" {
+						if t, ok := env.phiOver[phi]; ok && h == env.atBlock {
+							return Val{t: t, typ: phi.Type()}
+						}
+						if t, ok := env.fr.vals[phi]; ok {
+							return Val{t: t, typ: phi.Type()}
+						}
+					}
+				}
+			}
+			env.fail("no range loop %d in scope for %s", n, name)
+		}
+	}
+	if env.fr != nil && env.localSt != nil {
+		// inside old(..): a parameter denotes its value at entry, even when the body reassigns it
+		if v, ok := env.fr.params[name]; ok {
+			return v
+		}
+	}
 	if env.fr != nil && env.atBlock != nil {
 		lst := env.cur
 		if env.localSt != nil {
